@@ -294,3 +294,15 @@ func Yield(point string) {
 	mainCh <- struct{}{}
 	<-t.wake
 }
+
+// Watch / Unwatch / MutexHeld: lock-discipline audit (engine only; natively the race detector
+// and TryLock play that role).
+func Watch(x interface{}) {}
+func Unwatch()            {}
+func MutexHeld(m *sync.Mutex) bool {
+	if m.TryLock() {
+		m.Unlock()
+		return false
+	}
+	return true
+}
